@@ -1,7 +1,6 @@
 import Mp.Deps
 import Mp.DepsExact
 import Mp.CueDeps
-import Mp.FactChecks
 /-! C15 — property theorems (proved in the imported modules; statements are checked there, axioms audited here). -/
 #print axioms Deps.closure_sound
 #print axioms Deps.closure_complete
@@ -11,5 +10,3 @@ import Mp.FactChecks
 #print axioms Mp.blocked_iff
 #print axioms Mp.blocked_first_key_rejected
 #print axioms Mp.unblocked_first_key
-#print axioms Mp.FactChecks.closure_shape
-#print axioms Mp.FactChecks.base_paths
